@@ -12,7 +12,7 @@ HERE = os.path.dirname(os.path.abspath(__file__))
 VERIF = os.path.dirname(HERE)
 sys.path.insert(0, VERIF)
 
-from sa.report import AnalysisError, Report, load_known  # noqa: E402
+from sa.report import AnalysisError, Report, UnprovenScope, load_known  # noqa: E402
 
 ALL = [f"C{i:02d}" for i in range(1, 21)]
 
@@ -29,10 +29,24 @@ def run_one(prop: str, tier: str, root: str, evidence_dir: str) -> int:
     try:
         ctx = Ctx(root, tier)
         mod.run(ctx, rep)
+        rep, ctx = second_chance(prop, mod, tier, root, rep, ctx)
         rep.analysed.update(ctx.analysed())
         if tier == "thorough":
             thorough_extras(prop, mod, root, rep)
         return rep.finish(load_known(), evidence_dir)
+    except UnprovenScope as e:
+        # a function the argument needs is written with constructs the evaluator does not model: not proved for this tree
+        try:
+            r = rep.rule("scope", "every function the argument depends on is within the analysed statement/expression subset")
+            for kind, line in e.constructs:
+                r.fail(e.qual, f"{e.qual} uses `{kind}` (line {line}), a construct outside the analysed subset; the argument for this "
+                               f"property depends on this function, so the property is not proved for this tree",
+                       file=e.path, line=line, stmt=kind)
+            return rep.finish(load_known(), evidence_dir)
+        except Exception:
+            traceback.print_exc()
+            print(f"ANALYSIS-ERROR property={prop} checker raised (see traceback)")
+            return 2
     except AnalysisError as e:
         print(f"ANALYSIS-ERROR property={prop} {e}")
         return 2
@@ -40,6 +54,40 @@ def run_one(prop: str, tier: str, root: str, evidence_dir: str) -> int:
         traceback.print_exc()
         print(f"ANALYSIS-ERROR property={prop} checker raised (see traceback)")
         return 2
+
+
+def second_chance(prop: str, mod, tier: str, root: str, rep: Report, ctx):
+    """A shape at an anchor matched no verified form.  Before reporting it, re-evaluate the functions the findings name on a
+    finer normal form: private helpers called there that no rule looks at by itself are inlined even when they have several
+    returns or contain loops (inlining preserves behaviour, so a proof on the normal form is a proof for the tree).  If every
+    rule is then satisfied that run is the verdict; otherwise the original findings stand."""
+    from sa.context import Ctx
+
+    targets: set = set()
+    cur = rep
+    protect = set(ctx._touched_funcs)
+    for _ in range(3):
+        new = {f.construct for f in cur.findings()} - targets
+        if not cur.findings() or not new:
+            break
+        targets |= new
+        ctx2 = Ctx(root, tier)
+        ctx2.ev.deep_inline_in = set(targets)
+        ctx2.ev.deep_protect = protect - targets
+        rep2 = Report(prop, tier, rep.level, root)
+        try:
+            mod.run(ctx2, rep2)
+        except Exception:
+            return rep, ctx
+        if not ctx2.ev.deep_inlined:
+            break
+        if not rep2.findings():
+            rep2.extra["normal_form"] = {"private_helpers_inlined_at_their_call_sites": sorted(ctx2.ev.deep_inlined),
+                                         "inside": sorted(targets)}
+            return rep2, ctx2
+        cur = rep2
+        protect |= set(ctx2._touched_funcs)
+    return rep, ctx
 
 
 def thorough_extras(prop: str, mod, root: str, rep: Report) -> None:
